@@ -108,6 +108,14 @@ def shaped(base, shape):
         from .sym import Touchy
 
         return Touchy(base)  # a value that may only be passed on
+    if shape[0] == "lazy":
+        from .sym import LazySeq
+
+        return LazySeq(Sym("lazy", base), shape[1])  # every seq[i] is a fresh, short-lived object
+    if shape[0] == "handle":
+        from .sym import Handle
+
+        return Handle(Sym("handle", base))  # an object whose identity matters: consumers get this very object
     if shape[0] == "none":
         return None  # a function that legitimately returns None (side-effect only / "nothing found")
     if shape[0] == "tuple":
@@ -144,6 +152,11 @@ def mkprobe(name, shape=None, setup=False):
         tok = B.cur_token()
         B.REACH["FENTER"] += 1
         B.ev("FENTER", token=tok, node=node, fn=name, args=a, kwargs=dict(k))
+        from .sym import copies_in
+
+        for x in copies_in(a, k):
+            B.REACH["COPY_DELIVERED"] += 1
+            B.ev("COPY_DELIVERED", token=tok, node=node, fn=name, value=x)
         with State.lock:
             State.counts[name] += 1
         B.park_here()
